@@ -245,6 +245,9 @@ func newWorld(s *simkit.Sim, sc *Scenario) (*World, error) {
 		if err != nil {
 			return nil, err
 		}
+		if sc.Knobs.Latches > 0 {
+			st.EnableTxnLocalLatches(uint(sc.Knobs.Latches))
+		}
 		w.Stores = append(w.Stores, st)
 	}
 	s.OnAbort = func() { w.Net.CutAll(nclients) }
